@@ -16,7 +16,8 @@ RULE = ("request streams played from the daemon side (command, nonfatal flag, cw
         "object per helper for the whole stream: (A) install helpers with valid operands, missing files, directories, "
         "unknown options and *opts strings that force the external `install` fallback (-s, --bogus, symbolic modes, -v, -C, "
         "-b), including multi-target fallback requests in which a target that is not the last one cannot be installed "
-        "(a directory tree sits at its destination); (B) eapply/eapply_user/unpack (good, non-applying, corrupt, missing inputs), has_version/best_version, "
+        "(a directory tree sits at its destination), and recursive installs that fail part way followed by valid "
+        "recursive installs on the same helper object; (B) eapply/eapply_user/unpack (good, non-applying, corrupt, missing inputs), has_version/best_version, "
         "docompress/dostrip, filter_env; (C) single install requests with EACCES/ENOSPC/EIO/EROFS injected at the k-th "
         "call of os.makedirs/chmod/lchown/symlink/link/utime/unlink, shutil.copyfile, open under the image (every k in the "
         "thorough tier).  Judged per request: exactly one reply (write or raised IpcError whose .ret run_generic_phase "
@@ -30,7 +31,10 @@ ASSUMPTIONS = [
     "text the way EbuildProcessor.write does (str(x) + newline)",
     "whether a valid request is *placed* correctly is C33's business: a success reply is only called untruthful on positive "
     "evidence of failure; requests PMS forbids (directory without -r, ...) are judged for framing only",
-    "an IpcInternalError ('internal failure', build aborted) on a nonfatal request counts as a truthful failure reply",
+    "an IpcInternalError ('internal failure', build aborted) counts as a truthful failure *status*; on a nonfatal request "
+    "it is accepted only when something really failed (injected fault, inputs constructed to fail, external command): a "
+    "valid nonfatal request without any failing operation that ends the build violates 'for nonfatal requests the "
+    "failure code and message are returned'",
     "exit status of the external install command is taken from the real spawn_get_output call (observed, not modelled)",
     "the bash side of the frame (read -a splitting on BEL, backslash processing) and real-daemon runs are left to the daemon "
     "harness owner",
@@ -39,7 +43,7 @@ SHARDS = {"quick": 4, "thorough": 16}
 TIMEOUT = {"quick": 240, "thorough": 1100}
 MIN_EVALS = 800
 REQUIRED_COUNTERS = ("requests_judged", "fallback_requests", "fault_runs_fired", "misc_requests", "phase_fatal_failures",
-                     "nonfatal_failures_returned", "fallback_blocked_target_requests")
+                     "nonfatal_failures_returned", "fallback_blocked_target_requests", "failed_walk_then_valid_walk")
 
 P = hx.PKG_ID
 REPLY_RE = re.compile(r"^(?:0|-?\d+\x07[^\n\r]*)$")
@@ -191,6 +195,11 @@ def judge_install(ctx, sc, rec, req, status, text, wire, W, internal=False):
             ctx.violation("untruthful-success", W(dict(extra, rule="incomplete")))
     elif internal:
         ctx.count("internal_failures_accepted")  # the helper crashed: 'internal failure' is what it can truthfully say
+        # ... as a status.  But "for nonfatal requests the failure code and message are returned": a nonfatal request
+        # that is valid, met no failing operation and still ends the build was not answered the way the statement asks
+        if req.get("nonfatal") and not evidence and placement["verdict"] == "ok" and placement["entries"]:
+            ctx.violation("nonfatal-valid-request-aborted-build",
+                          W(dict(extra, rule=h, cause=str((rec.exc or {}).get("cause") or (rec.exc or {}).get("type")))))
     else:
         if not evidence and completed is True and placement["entries"]:
             ctx.violation("untruthful-failure", W(dict(extra, rule="action-completed")))
@@ -245,9 +254,21 @@ def make_domain():
 
 
 def run_records(ctx, sc, source, direct=False):
-    recs = sc.run(source, direct=direct)
+    try:
+        sc.run(source, direct=direct)
+    except Exception:
+        # a harness problem must not hide what was already observed: judge the recorded requests, then say so
+        import traceback
+
+        ctx.count("harness_errors")
+        ctx.set_inconclusive("harness exception (recorded requests were judged): " + traceback.format_exc()[-1500:])
+    recs = list(sc.all_records)
     for idx, rec in enumerate(recs):
         judge(ctx, sc, source.issued, idx, rec)
+    if sc.revived:
+        ctx.count("helpers_replaced_after_dead_coroutine", sc.revived)
+    for n in sc.harness_notes:
+        ctx.note(n)
     if sc.strays:
         ctx.evaluated()
         ctx.violation("stray-write", {"writes": sc.strays[:5], "history": source.issued, "eapi": sc.eapi, "tree": sc.tree_spec,
@@ -333,6 +354,40 @@ def scen_blocked_fallback(ctx, base):
         sc.cleanup()
 
 
+def scen_failed_walk_then_walk(ctx, base):
+    """A recursive install that fails part way (ordinary, reportable error raised while the tree is walked, or by the
+    symlink step) followed by valid recursive installs served by the SAME helper object."""
+    rng = ctx.rng
+    eapi = rng.choice(igen.EAPIS[4:])
+    tree = igen.gen_tree(rng)
+    sc0 = dict(hx.DEFAULT_SCOPE)
+    sc0["insdesttree"] = "/usr/share/vt"
+
+    def rq(helper, args, nonfatal=True, **over):
+        s = dict(sc0)
+        s.update(over)
+        return {"helper": helper, "eapi": eapi, "scope": s, "nonfatal": nonfatal, "args": args}
+
+    how = rng.choice(["dir-at-file-destination", "symlink-exists"])
+    if how == "dir-at-file-destination":
+        # a directory sits where plain/one.txt has to go: the copy step fails inside the walk
+        script = [rq("dodir", ["/usr/share/vt/plain/one.txt/x"], nonfatal=False), rq("doins", ["-r", "plain"])]
+    else:
+        # linky/dlink is a symlink to a directory: the second run fails in the symlink step (File exists)
+        script = [rq("doins", ["-r", "linky"], nonfatal=False), rq("doins", ["-r", "linky"])]
+    later = [["-r", "relinks"], ["-r", "over"], ["-r", "alt", "README"], ["-r", "sym"]]
+    rng.shuffle(later)
+    for args in later[: rng.randrange(1, 3)]:
+        script.append(rq(rng.choice(["doins", "doins", "doconfd", "doheader"]), args, nonfatal=rng.random() < 0.8))
+    sc = hx.Scenario(base, eapi, tree)
+    try:
+        recs = run_records(ctx, sc, hx.ReviveSource(sc, reqs=script), direct=(rng.random() < 0.2))
+        if len(recs) >= 3 and (recs[1].exc or not recs[1].writes or not recs[1].writes[0].startswith("0")):
+            ctx.count("failed_walk_then_valid_walk")
+    finally:
+        sc.cleanup()
+
+
 def scen_misc(ctx, base, allow_chown):
     rng = ctx.rng
     eapi = rng.choice(["4", "5", "6", "7", "8", "6", "7", "8"])
@@ -398,15 +453,17 @@ def run(ctx):
     # spawning is the expensive part (about a second per external command on a loaded machine)
     n_inst, n_fb, n_misc, n_fault = ctx.budget(12, 160), ctx.budget(3, 60), ctx.budget(5, 80), ctx.budget(4, 50)
     max_k = ctx.budget(4, 0)
-    n_blk = ctx.budget(2, 30)
-    total = n_inst + n_fb + n_misc + n_fault + n_blk
-    plan = ["i"] * n_inst + ["b"] * n_fb + ["m"] * n_misc + ["f"] * n_fault + ["k"] * n_blk
+    n_blk, n_walk = ctx.budget(2, 30), ctx.budget(3, 40)
+    total = n_inst + n_fb + n_misc + n_fault + n_blk + n_walk
+    plan = ["i"] * n_inst + ["b"] * n_fb + ["m"] * n_misc + ["f"] * n_fault + ["k"] * n_blk + ["w"] * n_walk
     ctx.rng.shuffle(plan)
     for i, kind in enumerate(plan):
         if kind in "ib":
             scen_install(ctx, base, allow_chown, with_fallback=(kind == "b"))
         elif kind == "k":
             scen_blocked_fallback(ctx, base)
+        elif kind == "w":
+            scen_failed_walk_then_walk(ctx, base)
         elif kind == "m":
             scen_misc(ctx, base, allow_chown)
         else:
